@@ -1,5 +1,5 @@
 (* C05 — Packets arrive whole, in order and unaltered however the transport fragments. *)
-From V Require Import lib.Base model.Channel proofs.ChannelP proofs.ChannelTie gen.Gen_channel.
+From V Require Import lib.Base model.Channel proofs.ChannelP proofs.ChannelW proofs.ChannelTie gen.Gen_channel.
 Open Scope N_scope.
 
 Section C05.
@@ -41,7 +41,24 @@ Theorem c05_end_to_end : forall tol cmp pkts fs wevs revs fuel, frames compress 
   (length pkts < fuel)%nat ->
   exists wire, send_all compress P cmp wevs pkts [] = Ok (true, wire) /\ recv_all decompress P fuel tol revs wire [] = (pkts, false).
 Proof. exact (end_to_end compress decompress zlib_roundtrip P Hhdr Hchunk). Qed.
+
+(* writer under ANY transport behaviour (partial sends, failure after any number of bytes): what reached the wire is a prefix of the
+   packet's frame, and the whole frame exactly when send returned normally (otherwise: stream closed, EOFError) *)
+Theorem c05_writer_any_transport : forall cmp data evs f ok w evs',
+  frame compress P cmp data = Ok f -> channel_send compress P cmp evs data = Ok (ok, w, evs') ->
+  is_prefix w f /\ (ok = true -> w = f).
+Proof. exact (send_any_transport compress P). Qed.
+
+(* and whoever reads that wire - earlier packets sent whole, then the packet whose send went wrong anywhere - through any read
+   behaviour gets whole leading packets only: never a shortened, padded or merged one *)
+Theorem c05_writer_fault_seen_by_reader : forall tol cmp pkts fs d f wevs ok w wevs' revs fuel,
+  frames compress P cmp pkts = Ok fs -> frame compress P cmp d = Ok f ->
+  channel_send compress P cmp wevs d = Ok (ok, w, wevs') ->
+  exists n, recv_all decompress P fuel tol revs (concat fs ++ w) [] = (firstn n (pkts ++ [d]), false).
+Proof. exact (writer_fault_seen_by_reader compress decompress zlib_roundtrip P Hhdr Hchunk). Qed.
 End C05.
+Print Assumptions c05_writer_any_transport.
+Print Assumptions c05_writer_fault_seen_by_reader.
 Print Assumptions c05_end_to_end.
 Print Assumptions c05_write_complete.
 Print Assumptions c05_delivery.
@@ -64,5 +81,16 @@ Example c05_nonvacuous :
              = ([[x61]; [x62; x63; x64; x65; x66]; []], false)
              /\ fst (recv_all (fun x => Ok x) Psmall 10 true [RData 5; RData 2; RErr] (nfirst 9 (concat fs)) []) = [[x61]]
   | _ => False
+  end.
+Proof. vm_compute. split; reflexivity. Qed.
+
+(* non-vacuity for the writer theorems: the transport accepts 3 bytes, then 2, then fails; 5 of the 11 frame bytes are on the wire,
+   send reports failure, and the reader of [earlier packet][those 5 bytes] gets the earlier packet only *)
+Example c05_writer_fault_sample :
+  match frame (fun x => x) Psmall true [x62; x63; x64; x65; x66], frame (fun x => x) Psmall true [x61] with
+  | Ok f, Ok f0 =>
+      channel_send (fun x => x) Psmall true [WSent 3; WSent 2; WErr] [x62; x63; x64; x65; x66] = Ok (false, nfirst 5 f, [])
+      /\ recv_all (fun x => Ok x) Psmall 10 true [] (f0 ++ nfirst 5 f) [] = ([[x61]], false)
+  | _, _ => False
   end.
 Proof. vm_compute. split; reflexivity. Qed.
